@@ -642,6 +642,8 @@ def _inv_atom(bn):
 def div(a, b):
     if _is_cplx(a) or _is_cplx(b):
         return cdiv(a, b)
+    if isinstance(b, (float, np.floating)) and math.isinf(b) and isinstance(a, SymReal):
+        return 0.0          # a symbolic value is a finite real: x / +-inf = 0
     fb = _fr(b) if not isinstance(b, SymReal) else b.const()
     if fb is not None and not (isinstance(b, SymReal) and b.d is not None):
         if fb == 0:
